@@ -18,7 +18,19 @@ def options(cfg, geo, eps):
           "matrix_epsilon": eps, "block_size": geo["block"], "merge": geo["merge"],
           "merge_block": geo["merge_limit"], "ptype": geo["ptype"],
           "exponent_override": geo["override"], "thr": 0.1, "diagonal_epsilon": geo.get("diag_eps", 1e-10),
-          "eigh": geo.get("eigh", False), "memred": geo.get("memred", False), "clip": (0.5 if cfg.get("clip") else None)}
+          "eigh": geo.get("eigh", False), "memred": geo.get("memred", False), "clip": (0.5 if cfg.get("clip") else None), "compression_rank": geo.get("crank", 0)}
+
+
+def dense_packed(p, size, crank):
+  """Dense matrix denoted by a packed low-rank preconditioner (eigenvectors | inverted eigenvalues, const,
+  flag): c (I - V V') + V diag(e) V', or the identity when the has-zeros flag tells the code to skip it."""
+  p = np.asarray(p, np.float64)
+  r = abs(crank)
+  p = p[:size, :r + 2]
+  V, e, c = p[:, :r], p[:r, -2], p[0, -1]
+  if p[-1, -2] != 0:
+    return np.eye(size)
+  return c * (np.eye(size) - V @ V.T) + (V * e) @ V.T
 
 
 def rel(a, b):
@@ -32,6 +44,7 @@ def handle(job):
   eps = 2.0 ** -10
   shapes = [tuple(s) for s in geo["shapes"]]
   o = options(cfg, geo, eps)
+  crank = geo.get("crank", 0)        # compression_rank: roots are stored packed, compared by their denotation
   mism, worst = [], {"update": 0.0, "stats": 0.0, "roots": 0.0}
   try:
     r = dsrun.Runner(o, shapes, seed)
@@ -58,8 +71,11 @@ def handle(job):
       st_ = stat_of(i, coefs)
       out = []
       for bi in range(len(geos[i].blocks)):
-        out.append([refds.inv_root(st_[bi][k], geos[i].p, eps * mult[off[i] + bi * len(geos[i].axes) + k])
-                    for k in range(len(geos[i].axes))])
+        if crank:
+          out.append([refds.compressed_root(st_[bi][k], geos[i].p, eps, crank) for k in range(len(geos[i].axes))])
+        else:
+          out.append([refds.inv_root(st_[bi][k], geos[i].p, eps * mult[off[i] + bi * len(geos[i].axes) + k])
+                      for k in range(len(geos[i].axes))])
       return out
 
     def stat_of(i, coefs):
@@ -143,7 +159,8 @@ def handle(job):
               if d > 1e-5:
                 mism.append({"clause": "statistics_differ_from_documented_form", "step": t, "param": i,
                              "stat": k, "detail": d})
-              gotp = dsrun._float(proj["precs"][k])[:sz, :sz]
+              gotp = (dense_packed(dsrun._float(proj["precs"][k]), sz, crank) if crank
+                      else dsrun._float(proj["precs"][k])[:sz, :sz])
               wr = np.eye(sz) if idr else want_r[bi][a]
               d = rel(gotp, wr)
               worst["roots"] = max(worst["roots"], d)
